@@ -19,7 +19,7 @@ import deribit_lib as L
 from common import Ctx, driver_json
 
 PROPERTY = "C16"
-LEAN_MODULES = ["Proofs.C16", "Proofs.C16.Run", "Proofs.C16.Trades", "Proofs.C16.General", "Proofs.C16.Guard", "Proofs.C16.Hooks", "Proofs.C16.HooksRun"]
+LEAN_MODULES = ["Proofs.C16", "Proofs.C16.Run", "Proofs.C16.Trades", "Proofs.C16.General", "Proofs.C16.Guard", "Proofs.C16.Hooks", "Proofs.C16.HooksRun", "Proofs.C16.Frame"]
 DRIVERS = ["driver_deribit"]
 RULE = ("whole backtests through Actuator.run: 2-5 hours at interval 1min (with a minutely Uniswap co-market), 3-8 hours at 5min / 1h, 6-14 hours at "
         "2h / 4h (resampled option data, whole coarse bars without option data); calls and puts, strikes around the underlying path and around the "
@@ -33,8 +33,15 @@ RULE = ("whole backtests through Actuator.run: 2-5 hours at interval 1min (with 
         "payoff>fee or not, expiry position class, row present/absent, settled at which kind of bar) and (trade attempt, bar open/closed, outcome)")
 TRUSTED = ["the payoff ratio |S-K|/S is float arithmetic (numpy) on book rows: reproduced with Lean Float in the driver, exact reals in the theorems; "
            "the oracle allows one fee step (1e-6) between the exact-real payoff and the float one and counts such cases (measured: see notes)",
-           "pandas resampling / Actuator plumbing is exercised, not modelled: the model's bar list is read off the frames the Actuator iterates"]
-ASSUMPTIONS = ["token prices are Decimals (Actuator.set_price converts), underlying prices > 0", "instrument names unique per hour"]
+           "pandas resampling / Actuator plumbing is exercised, not modelled: the model's bar list is read off the frames the Actuator iterates; "
+           "the option frame handed to the model (`frame`: which timestamps carry which rows, after resampling) is computed by this harness from the "
+           "scenario; from it the MODEL derives each bar's is_open flag and book (Demeter/Deribit/Frame.lean, `C16_flag_follows_data`) and the flag "
+           "is compared with the market's is_open after every bar"]
+ASSUMPTIONS = ["token prices are Decimals (Actuator.set_price converts)",
+               "underlying prices > 0 in the run-level streams: the theorems about update() carry it as the hypothesis `SettleGuard` (every due in-the-money "
+               "position has an underlying price other than 0, Proofs/C16/Guard.lean); without it update() raises (DivisionByZero / InvalidOperation) half-way — "
+               "modelled by `updateE`, compared step-wise in the `update:zero-underlying:*` buckets",
+               "instrument names unique per hour"]
 
 DELIVERY_FEE = Fraction(15, 100000)    # 0.015 % per contract      (property text)
 MAX_FEE = Fraction(125, 1000)          # 12.5 % of the option value (property text)
@@ -602,6 +609,8 @@ def model_request(sc, rec, prices, dm):
         ops = {"before": [], "on": [], "after": [], "notify": []}
         for op in sc["script"].get(now, []):
             ops[op.get("phase", "on")].append(L.op_json(op))
+        # `flagOpen` / `book` are what this harness expects; the driver does not read them when `frame` is sent (Demeter/Deribit/Frame.lean:
+        # the model derives both from the option frame: `timestamp in _data.index`, `_data.loc[timestamp.floor("1h")]`)
         bars.append({"now": now, "flagOpen": bool(now % width == 0 and books[book_idx[hm]]) if width > 60 else now in hours_present,
                      "book": book_idx[hm], "price": Fraction(prices.loc[L.ts_of(now)]["ETH"]), "priceDec": True,
                      "ops": ops["before"] + ops["on"], "opsAfter": ops["after"], "opsNotify": ops["notify"]})
@@ -612,7 +621,10 @@ def model_request(sc, rec, prices, dm):
                     "sellAmt": Fraction(0)})
     state = {"cash": Fraction(sc["cash"]), "positions": pos, "book": [], "wallet": [["ETH", Fraction(sc["wallet"])], ["USDC", Fraction(1000)]],
              "allowNeg": False, "cache": None, "flagOpen": True, "now": 0, "price": Fraction(0), "priceDec": True}
-    return {"fn": "bars", "cfg": "ETH", "ctx": "py", "float": "ieee", "state": L.canon(state), "books": L.canon(books), "bars": L.canon(bars)}
+    # the option frame as the market holds it (after resampling on a grid coarser than one hour): the timestamps that carry rows
+    frame = [{"t": hm, "book": bi} for hm, bi in sorted(book_idx.items()) if books[bi]]
+    return {"fn": "bars", "cfg": "ETH", "ctx": "py", "float": "ieee", "state": L.canon(state), "books": L.canon(books), "bars": L.canon(bars),
+            "frame": frame}
 
 
 def compare(ctx, sc, rec, balances, ans, rep):
